@@ -5,7 +5,8 @@
 (* state (tid); pos is the next event to explain.  Observable events are matched to the          *)
 (* machine's Fit / Reject / Return; Sort, LoopOrExit, Unsort (and SkipReject for maxiter = 0)     *)
 (* are internal.  A trace is accepted iff the position after its last event is reached (the      *)
-(* harness reads the positions printed below).                                                   *)
+(* harness reads the positions printed below).  A run that leaves the domain of the statement   *)
+(* (pc = "unspec": fewer good points left than a fit needs) is reported as such, not judged.     *)
 (*                                                                                               *)
 (* Trace (JSON object): n, perm, cpos, lower, upper, band, maxiter, mingood, tol, outliers,      *)
 (* events.  Points are named by their rank in (x, y) order; the harness's abstraction maps the   *)
@@ -63,5 +64,13 @@ Internal == Sort \/ (IF UseDev THEN Dev_StopsAfterFirstReject ELSE LoopOrExit) \
 
 Next == /\ pos <= Len(T.events) /\ UNCHANGED tid
         /\ \/ Observe /\ pos' = pos + 1 /\ PrintT(<<"C10POS", tid, pos', pc'>>)
-           \/ Internal /\ UNCHANGED pos
+           \/ Internal /\ UNCHANGED pos /\ (pc' = "unspec" => PrintT(<<"C10POS", tid, pos, pc'>>))
+
+(* laws of the machine that every explained prefix of a real run obeys (checked as invariants) *)
+T_SortIsArgsort == SortIsArgsort
+T_ZeroWeightNeverUsed == ZeroWeightNeverUsed
+T_MaskInCallerOrder == MaskInCallerOrder
+T_ReturnedCurveIsLastFit == ReturnedCurveIsLastFit
+T_WithinBudget == WithinBudget
+T_RejectedStayOut == RejectedStayOut
 =============================================================================
